@@ -535,12 +535,33 @@ class Interp:
             return True
         return bool(v)
 
+    def _sort_key(self, v: Any) -> Any:
+        """A NamedTuple instance used as a sort key orders like the tuple of its fields."""
+        if isinstance(v, Obj):
+            nt = self._namedtuple_fields(v.cls)
+            if nt is not None:
+                return tuple(self._sort_key(v.attrs[f]) for f in nt)
+        if isinstance(v, tuple):
+            return tuple(self._sort_key(x) for x in v)
+        return v
+
+    def _namedtuple_fields(self, cls: "ClassInfo | None") -> list[str] | None:
+        if cls is None or not any(b.split(".")[-1] == "NamedTuple" for c in self.prog.mro(cls) for b in c.base_names):
+            return None
+        fields: list[str] = []
+        for c in reversed(self.prog.mro(cls)):
+            fields += [n for n in c.class_annots if n not in fields]
+        return fields
+
     def _iterate(self, v: Any):
         if isinstance(v, Obj):
             if v.cls is not None and self.prog.lookup_method(v.cls, "__iter__"):
                 return self._iterate(self._call_dunder(v, "__iter__", []))
             if "__native__" in v.attrs:
                 return list(v.attrs["__native__"])
+            nt = self._namedtuple_fields(v.cls)
+            if nt is not None:
+                return [v.attrs[f] for f in nt]  # a NamedTuple instance iterates (and unpacks) as its fields in order
             raise AnalysisError(f"iteration over abstract object {v!r} not modelled")
         if isinstance(v, (Sym, ClassRef, ExtRef)) or v is None:
             raise Raised("TypeError")
@@ -637,6 +658,9 @@ class Interp:
             k = self._slice(e.slice, env)
             try:
                 if isinstance(c, Obj):
+                    nt = self._namedtuple_fields(c.cls)
+                    if nt is not None and not self.prog.lookup_method(c.cls, "__getitem__"):
+                        return tuple(c.attrs[f] for f in nt)[k]
                     return self._call_dunder(c, "__getitem__", [k])
                 return c[k]
             except NATIVE_EXC as ex:
@@ -850,7 +874,7 @@ class Interp:
             if m2 == "ast" and hasattr(ast, attr):
                 return getattr(ast, attr)
             return ExtRef(full)
-        if name in SAFE_BUILTINS or name in NATIVE_TYPES or name in ("isinstance", "any", "all", "getattr", "hasattr", "next", "iter", "issubclass", "callable", "print", "super", "id", "type", "map", "filter", "compile", "vars"):
+        if name in SAFE_BUILTINS or name in NATIVE_TYPES or name in ("isinstance", "any", "all", "getattr", "setattr", "hasattr", "next", "iter", "issubclass", "callable", "print", "super", "id", "type", "map", "filter", "compile", "vars"):
             return ExtRef(f"builtins.{name}")
         if name == "Ellipsis":
             return ...  # the one real object: `value is Ellipsis` compares identities
@@ -1140,7 +1164,7 @@ class Interp:
             try:
                 if attr in ("sort",) and "key" in kwargs:
                     k = kwargs["key"]
-                    obj.sort(key=lambda x: self.apply(k, [x], {}), reverse=kwargs.get("reverse", False))
+                    obj.sort(key=lambda x: self._sort_key(self.apply(k, [x], {})), reverse=kwargs.get("reverse", False))
                     return None
                 return getattr(obj, attr)(*args, **kwargs)
             except NATIVE_EXC as ex:
@@ -1228,6 +1252,20 @@ class Interp:
                     if len(args) > 2:
                         return args[2]
                     raise
+            if short == "setattr" and len(args) == 3:
+                if isinstance(args[0], Obj) and isinstance(args[1], str):
+                    obj_, name_ = args[0], args[1]
+                    setter = None
+                    if obj_.cls is not None:
+                        for m in self.prog.lookup_method(obj_.cls, name_):
+                            if any(d.endswith(".setter") for d in m.decorators):
+                                setter = m
+                    if setter is not None and name_ not in obj_.attrs:
+                        self._invoke(setter, [obj_, args[2]], {}, None)
+                    else:
+                        obj_.attrs[name_] = args[2]
+                    return None
+                raise AnalysisError("setattr on something that is not an abstract object not modelled")
             if short == "hasattr":
                 try:
                     self._getattr(args[0], args[1], None)
@@ -1260,7 +1298,7 @@ class Interp:
                 args = [list(self._iterate(args[0])), *args[1:]]
             if short == "sorted" and "key" in kwargs:
                 k = kwargs["key"]
-                return sorted(args[0], key=lambda x: self.apply(k, [x], {}), reverse=kwargs.get("reverse", False))
+                return sorted(args[0], key=lambda x: self._sort_key(self.apply(k, [x], {})), reverse=kwargs.get("reverse", False))
             if short == "str" and args and isinstance(args[0], (Obj, Sym)):
                 return self._str(args[0])
             if short == "bool" and args:
